@@ -447,6 +447,7 @@ class Obligation:
     bound: str | None = None
     tier: str = "quick"              # minimum tier at which it runs
     max_paths: int = 4000
+    time_budget_s: float = 0.0       # wall-clock budget for the exploration (0 = tier default)
     timeout_ms: int = 10000
     expect: tuple = ()               # clause names that must be evaluated on at least one path
     params: dict = field(default_factory=dict)
@@ -472,7 +473,7 @@ def split(ob: "Obligation", **axes):
         params = dict(ob.params)
         params["fix"] = {**params.get("fix", {}), **fix}
         out.append(Obligation(name=f"{ob.name}[{tag}]", fn=ob.fn, kind=ob.kind, functions=ob.functions, bound=(ob.bound or "") + f" [{tag}]",
-                              tier=ob.tier, max_paths=ob.max_paths, timeout_ms=ob.timeout_ms, expect=(), params=params, doc=ob.doc,
+                              tier=ob.tier, max_paths=ob.max_paths, timeout_ms=ob.timeout_ms, time_budget_s=ob.time_budget_s, expect=(), params=params, doc=ob.doc,
                               runner=ob.runner, stubs=ob.stubs, assumptions=ob.assumptions))
     return out
 
@@ -506,8 +507,9 @@ def explore(ob: Obligation, known_open=(), tier="quick"):
     stubs = set()
     t_start = time.time()
     budget_hit = False
+    budget_s = ob.time_budget_s or float(os.environ.get("PVC_TIME_BUDGET_S", "0") or 0) or (420.0 if tier == "quick" else 7200.0)
     while worklist:
-        if paths >= ob.max_paths:
+        if paths >= ob.max_paths or time.time() - t_start > budget_s:
             budget_hit = True
             break
         prefix = worklist.pop()
@@ -562,13 +564,19 @@ def explore(ob: Obligation, known_open=(), tier="quick"):
                 model = None
                 s = c.solver
                 s.set("timeout", ob.timeout_ms)
-                if s.check() == z3.sat:
-                    model = h._extract_model(s.model())
+                feas = s.check()
                 a = agg.setdefault("no_exception", {"discharged": 0, "sat": 0, "unknown": 0, "models": [], "info": []})
-                a["sat"] += 1
-                if len(a["models"]) < 8:
-                    a["models"].append(model)
-                if len(a["info"]) < 3:
+                if feas == z3.sat:
+                    model = h._extract_model(s.model())
+                    a["sat"] += 1
+                    if len(a["models"]) < 8:
+                        a["models"].append(model)
+                elif feas == z3.unsat:
+                    # the path was only entered because a feasibility query timed out; it is in fact infeasible
+                    a["discharged"] += 1
+                else:
+                    a["unknown"] += 1      # feasibility of the raising path not established: undecided, never a violation
+                if feas != z3.unsat and len(a["info"]) < 3:
                     a["info"].append(f"{exc[1]}: {exc[2]}\n{exc[3]}")
         else:
             a = agg.setdefault("no_exception", {"discharged": 0, "sat": 0, "unknown": 0, "models": [], "info": []})
@@ -651,7 +659,7 @@ def run_obligation(ob: Obligation, known=(), tier="quick"):
             if reproduced:
                 cl["verdict"] = "violated"
                 res["violations"].append(reproduced)
-            elif last is not None and last[0] == "passed":
+            elif last is not None and last[0] in ("passed", "failed", "raised"):
                 # the candidate input satisfies the clause on the real code: the solver's model is an artefact of the
                 # abstraction (uninterpreted functions, reals for floats) -- undecided, never a violation
                 cl["verdict"] = "undecided"
@@ -673,7 +681,7 @@ def run_obligation(ob: Obligation, known=(), tier="quick"):
     if stats["paths"] == 0:
         res["undecided"].append({"clause": "@vacuity", "why": "no feasible path (precondition unsatisfiable?)"})
     if stats["budget_hit"]:
-        res["undecided"].append({"clause": "@paths", "why": f"path budget {ob.max_paths} exhausted"})
+        res["undecided"].append({"clause": "@paths", "why": f"path budget ({ob.max_paths} paths) or time budget exhausted after {stats['paths']} paths, {stats['wall_s']:.0f} s"})
     # known findings: replay each listed witness without its exclusion
     for k in known_here:
         st, failing, detail = replay_concrete(ob, k.get("witness", {}), known_open, tier, ignore_exclusions=True)
